@@ -13,7 +13,7 @@ from ..geom import sq_dist_point_segment
 
 PROPERTY = "C09"
 LATTICE = [(x, y) for x in range(3) for y in range(3)]
-TOLS = [-1, 0, 0.5, 1, 1.5, 2.5]
+TOLS = [-1, 0, 0.5, 1, 1.2, 1.5, 2.5]     # 1.2, 2.5: between lattice spans (1, 2) and diagonals
 
 
 def _lib():
